@@ -72,6 +72,25 @@ check_symbol_exists(setrlimit    "sys/resource.h;sys/time.h" HAVE_SETRLIMIT)
 
 check_struct_member(cmsgcred cmcred_pid "sys/types.h;sys/socket.h" HAVE_CMSGCRED)   #  dbus-sysdeps.c
 
+# as the check in configure.ac: used by _dbus_get_monotonic_time and the condition variables
+if(UNIX)
+    set(CMAKE_REQUIRED_LIBRARIES_SAVED ${CMAKE_REQUIRED_LIBRARIES})
+    find_package(Threads)
+    list(APPEND CMAKE_REQUIRED_LIBRARIES ${CMAKE_THREAD_LIBS_INIT})
+    CHECK_C_SOURCE_COMPILES("
+#include <time.h>
+#include <pthread.h>
+int main() {
+struct timespec monotonic_timer;
+pthread_condattr_t attr;
+pthread_condattr_init (&attr);
+pthread_condattr_setclock (&attr, CLOCK_MONOTONIC);
+clock_getres (CLOCK_MONOTONIC,&monotonic_timer);
+return 0;
+}" HAVE_MONOTONIC_CLOCK)
+    set(CMAKE_REQUIRED_LIBRARIES ${CMAKE_REQUIRED_LIBRARIES_SAVED})
+endif()
+
 CHECK_C_SOURCE_COMPILES("
 #ifndef __linux__
 #error This is not Linux
